@@ -373,8 +373,26 @@ def run_harnesses(harnesses, found, jobs=8, progress=None):
     os.makedirs(wd, exist_ok=True)
     results = []
     lock = threading.Lock()
+    # memory-aware admission: the sum of the admitted harnesses' memory budgets stays below
+    # VERIF_MEM_GB (default 52 of the 62 GB), so that no run is shot by the kernel's OOM killer
+    budget = float(os.environ.get("VERIF_MEM_GB", "52"))
+    cv = threading.Condition()
+    state = {"used": 0.0}
 
     def one(h):
+        need = min(float(h.mem_gb or 8), budget)
+        with cv:
+            while state["used"] + need > budget + 1e-9:
+                cv.wait()
+            state["used"] += need
+        try:
+            return _one(h)
+        finally:
+            with cv:
+                state["used"] -= need
+                cv.notify_all()
+
+    def _one(h):
         if h.name not in found:
             r = {"harness": h.name, "verdict": "error", "detail": "harness not produced by codegen",
                  "core": h.core}
